@@ -689,11 +689,12 @@ pub struct Host {
     pub dup: bool,
     pub nonfinite: bool,
     pub noncanon: bool,
+    pub alias: bool,
 }
 
 /// The i-th generated payload for a subject (deterministic in (seed, subject name, i)).
 pub fn gen_case(reg: &Registry, s: &dyn Subject, seed: u64, i: u64, hostile: bool) -> Case {
-    gen_case_h(reg, s, seed, i, Host { dup: hostile, nonfinite: hostile, noncanon: hostile })
+    gen_case_h(reg, s, seed, i, Host { dup: hostile, nonfinite: hostile, noncanon: hostile, alias: hostile })
 }
 
 pub fn gen_case_h(reg: &Registry, s: &dyn Subject, seed: u64, i: u64, h: Host) -> Case {
@@ -705,7 +706,8 @@ pub fn gen_case_h(reg: &Registry, s: &dyn Subject, seed: u64, i: u64, h: Host) -
         fault_pm,
         max_depth: 5,
         max_len: 1 + rng.below(4),
-        allow_dup: hostile && h.dup && rng.chance(1, 3),
+        allow_dup: hostile && h.dup && (rng.chance(1, 3) || (!h.nonfinite && !h.noncanon)),
+        allow_key_alias: h.alias,
         allow_nonfinite: hostile && h.nonfinite && (rng.chance(1, 3) || (!h.dup && !h.noncanon)),
         allow_noncanonical: hostile && h.noncanon && rng.chance(1, 3),
         extra_key_pm: *rng.pick(&[0u32, 100, 300]),
